@@ -4,6 +4,8 @@ base strings, known-finding signatures (predicates over a failing case)."""
 KIND_NAMES = {
     201: 'C02/new_pieces: metainfo.NewInfo+piece.NewPieces vs Geometry.new_pieces',
     202: 'C02/calc_blocks: piece.calculateBlocks vs Geometry.calc_blocks',
+    203: 'C02/section_io: filesection.Piece.Write+ReadAt vs SectionIO.write_secs/read_at',
+    204: 'C02/create_jobs: urldownloader.createJobs vs SectionIO.create_jobs',
     1601: 'C16/tier: tracker.Tier vs Tier.v (crun)',
 }
 
@@ -19,7 +21,8 @@ TRUSTED_COMMON = [
 
 PROPS = {
     'C02': {
-        'kinds': {201: {'quick': 3000, 'thorough': 60000}, 202: {'quick': 3000, 'thorough': 60000}},
+        'kinds': {201: {'quick': 3000, 'thorough': 60000}, 202: {'quick': 3000, 'thorough': 60000},
+                  203: {'quick': 1500, 'thorough': 20000}, 204: {'quick': 2000, 'thorough': 40000}},
         'trusted': [],
         'assumptions': [],
     },
